@@ -58,7 +58,9 @@ PROP = dict(
 
 THEOREMS = ["Wtf.C17." + t for t in (
     "starts", "spec_recognised", "limit_in_force_pos", "rejects_bad_limit", "limit", "prints_engine", "prints_engine_ids", "block_of_answer",
-    "json_shape", "json_members", "no_escapes", "history_one", "history_untouched")]
+    "json_shape", "json_members", "no_escapes", "history_one", "history_untouched",
+    # Props/C17b.lean: the JSON block is a JSON text (string encoder modelled, parsed back by the recogniser of Model/JsonText.lean)
+    "layout_ok", "names_ok", "json_text_of_items", "json_wellformed", "json_object", "toValid_ascii")]
 
 ASSERTIONS = ["flags:commands-found", "flags:registrations", "flags:single-root",
               "cli:search-run", "cli:validate-query-first", "cli:validate-limit", "cli:flag-reads", "cli:load-with-recovery",
@@ -985,7 +987,7 @@ def subcommand_stream(ctx, wtf, n):
 
 def run(ctx):
     ctx.stage_xlate(required_assertions=ASSERTIONS)
-    ctx.stage_prove(THEOREMS)
+    ctx.stage_prove(THEOREMS, extra_targets=["WtfModel.Props.C17b", "WtfModel.Audit.C17b"])
     if not ctx.stage_build():
         return
     with core.BuildLock():
